@@ -1301,7 +1301,7 @@ func (t *Tracer) interesting(f *ssa.Function, depth int) (res bool) {
 				// a predicate helper: its returned expression is a decision of the caller
 				if r, ok := in.(*ssa.Return); ok && len(r.Results) == 1 && t.Spec.Branch != nil {
 					switch r.Results[0].(type) {
-					case *ssa.BinOp, *ssa.UnOp:
+					case *ssa.BinOp, *ssa.UnOp, *ssa.Call, *ssa.Extract:
 						fake := &ssa.If{Cond: r.Results[0]}
 						if len(t.Spec.Branch(t, fr, fake, true)) > 0 || len(t.Spec.Branch(t, fr, fake, false)) > 0 {
 							return true
